@@ -12,6 +12,7 @@ mod util;
 mod polyio;
 mod polyops;
 
+mod c01;
 mod c11;
 
 use std::io::{BufRead, Write};
@@ -22,6 +23,7 @@ type RunFn = fn(&str) -> Obs;
 
 fn table(prop: &str) -> Option<(GenFn, RunFn)> {
     match prop {
+        "C01" => Some((c01::generate, c01::run)),
         "C11" => Some((c11::generate, c11::run)),
         "POLY" => Some((polyops::generate, polyops::run)),
         _ => None,
